@@ -32,3 +32,9 @@ claim("C08", "post-condition monitors on GeoBox.from_bbox / from_geopolygon / zo
       "exact shape and < 1 px displacement for shape requests; ~3e4 (quick) / 2e6 (thorough) judged calls over resolution signs x anchors x tight x tol x magnitudes 1e-3..1e7 px "
       "with start coordinates placed on either side of every tolerance boundary.",
       _TB + " eps = 1e-9*max(1,|coord|/pixel).", "DESIGN.md 5/C08")
+
+claim("C14", "reference-model monitor: analytic grid model vs real GridSpec on an index window, plus self-consistency (pairwise disjointness, shared edges), seeded point/bbox/polygon queries and slippy-map formula",
+      "Each seeded grid specification (4 flip combinations x resolution signs x origins up to 1e6 x tile shapes 1..4000) is examined on [-4,4]^2 + far indices: footprints vs model, "
+      "interior-disjoint, neighbours share edges, 40 points per grid incl. edges/corners, bbox queries (random and exactly tile-aligned, edge contacts must be excluded), polygon queries in the "
+      "grid CRS and in EPSG:4326 (must/may sets by shapely areas), rebuild from a sample tile, web_tiles z<=22 against the slippy-map formula and the world-bounds query.",
+      _TB + " Cross-CRS polygon queries are densified so vertex-wise projection follows the true image.", "DESIGN.md 5/C14")
